@@ -175,6 +175,9 @@ Section Safe.
       cstl_hash_func_t) *)
   Definition in_range : Prop := forall f k m, 0 < m -> exists i, hf f k m = Some i /\ i < m.
 
+  Lemma in_range_hf_def : in_range -> forall f k m, 0 < m -> hf f k m <> None.
+  Proof. intros R f k m Hm. destruct (R f k m Hm) as (i & -> & _). discriminate. Qed.
+
   (** "no fault; an abort only if some hash function left its range; on
       normal return [P] holds" *)
   Definition safe {A} (r : res A) (P : A -> list ev -> Prop) : Prop :=
